@@ -56,6 +56,8 @@ def generate(streams, tier):
             continue
         q = c02.gen_query(rw, world, ref, allow_virtual=(kind == "bn" and (str_labels or rw.random() < 0.2)))
         q["op"] = k
+        if k == "bp_map":
+            q["pre"] = rw.choice([None, None, "max_calibrate", "calibrate"])
         okind = weighted(rw, [("default", 2), ("heur", 3), ("explicit", 3), ("none", 3)])
         if okind == "heur":
             q["order"] = rw.choice(c01.HEURISTICS)
@@ -66,7 +68,8 @@ def generate(streams, tier):
         else:
             q["order"] = "default"
         ops.append(q)
-    return {"kind": kind, "world": world, "config": config, "ops": ops}
+    # one engine object for the whole history (a user keeps the engine and calibrates it between questions) or a fresh one per question
+    return {"kind": kind, "world": world, "config": config, "ops": ops, "shared_engines": rw.random() < 0.5}
 
 
 def describe(case):
@@ -91,6 +94,16 @@ def execute(case, ctx):
     ctx.fault("relabel")
     ctx.fault("insertion_permute")
     ctx.sig_order("labels", [names.lab2idx[x] for x in set(names.labels)])
+    engines = {}
+
+    def engine(cls):
+        if not case.get("shared_engines"):
+            return cls(model)
+        if cls not in engines:
+            engines[cls] = cls(model)
+            ctx.fault("engine_reuse")
+        return engines[cls]
+
     for i, op in enumerate(case["ops"]):
         ctx.step_no = i
         ctx.steps += 1
@@ -117,9 +130,13 @@ def execute(case, ctx):
                 if o != "default":
                     kw["elimination_order"] = [names.L(v) for v in o[1] if v < world["n"]] if isinstance(o, list) else o
                 ctx.probe("order_" + ("explicit" if isinstance(o, list) else str(o).lower()))
-                res = VariableElimination(model).map_query([names.L(v) for v in q], evidence=names.ev(ev) or None, show_progress=False, **kw)
+                res = engine(VariableElimination).map_query([names.L(v) for v in q], evidence=names.ev(ev) or None, show_progress=False, **kw)
             else:
-                res = BeliefPropagation(model).map_query([names.L(v) for v in q], evidence=names.ev(ev) or None, show_progress=False, **kw)
+                bp = engine(BeliefPropagation)
+                if op.get("pre"):
+                    getattr(bp, op["pre"])()
+                    ctx.probe("map_after_" + op["pre"])
+                res = bp.map_query([names.L(v) for v in q], evidence=names.ev(ev) or None, show_progress=False, **kw)
         except Exception as e:
             ctx.fail("succeeds", f"{PROP}:raise:{k}:{type(e).__name__}:{exc_site(e)}", {"exc": exc_brief(e), "kind": kind})
             continue
@@ -221,8 +238,16 @@ def shrink_candidates(case):
             c = copy.deepcopy(case)
             c["world"]["states"] = [None] * n
             yield c
+    if case.get("shared_engines"):
+        c = copy.deepcopy(case)
+        c["shared_engines"] = False
+        yield c
     for i, op in enumerate(case["ops"]):
         if op["op"] in ("ve_map", "bp_map"):
+            if op.get("pre"):
+                c = copy.deepcopy(case)
+                c["ops"][i]["pre"] = None
+                yield c
             if op.get("virt"):
                 c = copy.deepcopy(case)
                 c["ops"][i]["virt"] = []
